@@ -831,6 +831,11 @@ def directed_histories(rng):
         H([C('set_system_boot_options', 5, lean.hexs(bytes([0x80, code << 2, 0, 0, 0])), 0), C('get_boot_device')])
     for p in (0, 1, 2, 3, 4, 5, 15):        # privilege: both directions
         H([C('set_user_access', 2, 1, 0, 1, p, 1, 1, 3), C('get_user_access', 2, 1)])
+    # access flags set by one call and cleared by the next (all three 0 with the change bit set), per flag and together
+    for flags in ((1, 0, 0), (0, 1, 0), (0, 0, 1), (1, 1, 1)):
+        H([C('set_user_access', 3, flags[0], flags[1], flags[2], 4, 7, 1, 2), C('get_user_access', 3, 7),
+           C('set_user_access', 3, 0, 0, 0, 4, 7, 1, 2), C('get_user_access', 3, 7),
+           C('set_user_access', 3, flags[0], flags[1], flags[2], 3, 7, 0, 2), C('get_user_access', 3, 7)])
     for src in (0, 1, 2, 3, 4):             # ip source codes
         H([C('set_lan_config_param', 1, 4, '%02x' % src), C('get_ip_source', 1)])
     for src in (1, 2):
@@ -1139,8 +1144,9 @@ def search(ctx):
     rng = ctx.rng('c07-search')
     fams = set()
     for d in ctx.disagreements:
-        if d['what'] in OPS:
-            fams.add(OPS[d['what']].fam)
+        name = d['what'].split(':')[0]          # 'set_user_access:request' names the operation too
+        if name in OPS:
+            fams.add(OPS[name].fam)
     for k, detail in ctx.broken:
         for f in FAMILIES:
             if f in detail.lower():
